@@ -67,6 +67,15 @@ check("C14",
       "Coq proof (induction over ticks / op lists) + extracted-model correspondence vs Python and Rust",
       "DESIGN.md 5 C14")
 
+check("C18",
+      "Coq theorems over an executable model of AsyncDriver (scripted tasks; the thread-local wake/event channel explicit; run_for with its while loop as fuel recursion, proved total): "
+      "one scheduling round moves the clock exactly to the earliest wake cycle, never backwards, and resumes that cycle's tasks in insertion order; a sleep of n at cycle c wakes at c+n; "
+      "for every budget list the driver state equals some number of canonical rounds (budget independence), so resumption logs of any two partitions are prefix-comparable; "
+      "events are returned exactly once and in emission order - all by induction over budgets/rounds, no bound. Tied to the real AsyncDriver by a correspondence run; the CPU-through-scheduler clause is checked on the real AsyncRuntimeRunner against CoreRuntime::step.",
+      "Trusted: Coq kernel, extraction, verif-harness sched_cmd.rs. Modelled not verified: async_driver.rs. Partial: async_cpu/async_runtime equivalence is a correspondence result on generated programs (the CPU step is not modelled here); async_devices.rs and the CLI binary are outside.",
+      "Coq proof (simulation by canonical rounds, induction) + extracted-model correspondence vs the Rust AsyncDriver",
+      "DESIGN.md 5 C18")
+
 NOT_APPLICABLE = {}
 
 def build():
